@@ -1,3 +1,4 @@
+import NgoVerif.Proofs.C10stm
 import NgoVerif.Generated.Tables
 import NgoVerif.Meta.Fold
 import NgoVerif.Meta.Split
@@ -43,5 +44,48 @@ own declaration lists, under the parameter names the class declares, and replace
 theorem C10_wiring :
     Tables.API_ARGS.lookup "duplication" = some (["input_", "input_predicates"], "input_", "input_") ∧
     Tables.CTOR_PARAMS.lookup "duplication" = some ["prg", "input_predicates"] := by decide
+
+/-! ## end to end for typed programs (`Proofs/C10stm.lean`)
+
+`u : Use` is one place of use: the rule `head :- body.`, the canonical auxiliary rule `aux(V̄) :- Sb.` the pass emits and
+the renaming `σ` that turns it into the copy at that place.  `u.split.orig` is the rule before, `u.split.updRule` the
+rule after (`head :- rest, aux(σ V̄).`), `u.canon` the auxiliary rule. -/
+open Proofs.C10stm Proofs.C16stm in
+/-- **first place of use**: factoring is a one-to-one conservative extension (soundness) -/
+theorem C10_factor_first_sound (P : Sem.Params) (hp : Sem.AggPersistent P) (u : Use) (hinv : ∀ v, u.σ (u.σ v) = v)
+    (hok : Ok u.split) (pre post : Prog) (hctx : CtxOk u.split pre post) (T : Sem.Interp)
+    (hT : Sem.Stable (Sem.stdParams P) (pre ++ u.split.orig :: post) T) :
+    Sem.Stable (Sem.stdParams P) (pre ++ u.canon :: u.split.updRule :: post)
+      (Proofs.C16sem.extend (Sem.stdParams P) (fun v => v ∈ u.split.G0) u.split.syn T) :=
+  factor_first_sound P hp u hinv hok pre post hctx T hT
+
+open Proofs.C10stm Proofs.C16stm in
+/-- … and completeness -/
+theorem C10_factor_first_complete (P : Sem.Params) (hp : Sem.AggPersistent P) (u : Use) (hinv : ∀ v, u.σ (u.σ v) = v)
+    (hok : Ok u.split) (pre post : Prog) (hctx : CtxOk u.split pre post) (T' : Sem.Interp)
+    (hT' : Sem.Stable (Sem.stdParams P) (pre ++ u.canon :: u.split.updRule :: post) T') :
+    ∃ T, Sem.Stable (Sem.stdParams P) (pre ++ u.split.orig :: post) T ∧
+      ∀ a, T' a ↔ Proofs.C16sem.extend (Sem.stdParams P) (fun v => v ∈ u.split.G0) u.split.syn T a :=
+  factor_first_complete P hp u hinv hok pre post hctx T' hT'
+
+open Proofs.C10stm Proofs.C16stm in
+/-- **a further place of use**: with the auxiliary rule present, folding does not change the stable models.  `_partial`:
+the context `pre ++ post` must not mention the auxiliary predicate, i.e. the places of use already rewritten are not
+covered by this statement (the simultaneous version for all places of use is not proved; the oracle validates it) -/
+theorem C10_factor_next_partial (P : Sem.Params) (hp : Sem.AggPersistent P) (u : Use) (hinv : ∀ v, u.σ (u.σ v) = v)
+    (hok : Ok u.split) (pre post : Prog) (hctx : CtxOk u.split pre post) (T : Sem.Interp) :
+    Sem.Stable (Sem.stdParams P) (pre ++ u.canon :: u.split.orig :: post) T ↔
+      Sem.Stable (Sem.stdParams P) (pre ++ u.canon :: u.split.updRule :: post) T :=
+  factor_next P hp u hinv hok pre post hctx T
+
+open Proofs.C10stm Proofs.C16stm in
+/-- the executable check implies the hypotheses -/
+theorem C10_check_sound (line col : Nat) (head : Head) (body rest : List BLit) (auxName : String) (V args : List String)
+    (Sb : List BLit) (la ca : Nat) (pre post : Prog)
+    (h : dupCheck (useOf line col head body rest auxName V args Sb la ca) (V.zip args) pre post = true) :
+    (∀ v, (useOf line col head body rest auxName V args Sb la ca).σ ((useOf line col head body rest auxName V args Sb la ca).σ v) = v) ∧
+      Ok (useOf line col head body rest auxName V args Sb la ca).split ∧
+      CtxOk (useOf line col head body rest auxName V args Sb la ca).split pre post :=
+  dupCheck_sound line col head body rest auxName V args Sb la ca pre post h
 
 end NgoVerif
